@@ -29,7 +29,7 @@ def replay(r: Run, path):
     ops = rec["observed"]["history"]
     line = "comp\t4\t" + ";".join(ops)
     r.build_harness()
-    il = r.impl("comp", [line])[0]
+    il = r.impl("comp", [comp.case_line(dict(ops=ops, nregs=4), impl=True)])[0]
     ml = r.model("comp", [line])[0]
     print("history:", ops)
     for op, a, b in zip(ops, il.split(";"), ml.split(";")):
